@@ -437,6 +437,9 @@ _x("hw_invoice_v1", "m_edge.InvoiceV1", """<i:invoice xmlns:i="urn:invoice:v1" t
 _x("hw_invoice_v2", "m_edge.InvoiceV2", """<i:invoice xmlns:i="urn:invoice:v2" total="2.0"><i:number>n2</i:number></i:invoice>""")
 _x("hw_invoice_none", "m_edge.InvoiceNone", """<invoice total="3.0"><number>n3</number></invoice>""")
 _x("hw_stocked", "m_edge.Stocked", """<e:stocked xmlns:e="urn:e" alt="CD-2"><e:sku>AB-1</e:sku><e:qty>3</e:qty></e:stocked>""")
+_x("hw_noclass_settings1", None, """<Settings1><settings_one_name>x</settings_one_name></Settings1>""")
+_x("hw_noclass_settings2", None, """<Settings2><settings_two_name>x</settings_two_name></Settings2>""")
+_x("hw_holder_settings", "m_edge.Holder", """<e:holder xmlns:e="urn:e" xmlns:xsi="http://www.w3.org/2001/XMLSchema-instance"><e:anything xsi:type="Settings1"><settings_one_name>n</settings_one_name></e:anything><e:more xsi:type="Settings2"><settings_two_name>m</settings_two_name></e:more></e:holder>""")
 _x("hw_attrmix", "m_edge.AttrMix", """<e:attrMix xmlns:e="urn:e" xmlns:o="urn:o" id="i" xml:lang="en" xml:space="preserve" e:qualified="4" o:x="1" plain="p"> 7 </e:attrMix>""")
 _x("hw_item_constructs", "m_basic.Item", """<?xml version="1.0"?><!DOCTYPE item [<!ENTITY nm "entity name">]><?pi before?><!-- c --><item xmlns="urn:basic" id="&#49;" xml:lang="en"><?pi inside?><name>&nm; <![CDATA[<cdata>]]> &amp;<!-- in text --> end</name><qty><![CDATA[2]]></qty></item><!-- after --><?pi after?>""")
 _x("hw_item_leapday", "m_basic.Item", """<item xmlns="urn:basic" id="1"><name>leap</name><when>2024-02-29</when><stamp>2024-02-29T10:00:00Z</stamp><at>23:59:59.999</at><took>P1Y2M3DT4H5M6.5S</took></item>""")
@@ -524,6 +527,8 @@ JSON = {
     "js_noclass_thing_w": ('{"w": 5}', None, None),
     "js_noclass_thing_v": ('{"v": "only the local type has this"}', None, None),
     # located by field names only
+    "js_noclass_settings1": ('{"settings_one_name": "y"}', None, None),
+    "js_noclass_settings2": ('{"settings_two_name": "y"}', None, None),
     "js_noclass_order": ('{"number": 3, "item": [], "comment": "c", "extra": {}}', None, None),
     "js_noclass_unrelated": ('{"name": "n", "only_here": "o"}', None, None),
     "js_noclass_animal": ('{"name": "n"}', None, None),
@@ -570,6 +575,8 @@ QNAMES = [
     ("{http://www.w3.org/2001/XMLSchema}string", None),
     ("Child", None),
     ("{urn:e}thing", None),
+    ("Settings1", None),
+    ("Settings2", None),
     ("{urn:e}slotted", None),
 ]
 FIELD_SETS = [
